@@ -178,7 +178,7 @@ Proof.
     exists (u16_be pkid ++ [r] ++ pb). split; [reflexivity |]. split; [exact Hrll |]. rewrite Hpb. cbn [bind].
     split; [rewrite Hrll; reflexivity |].
     split; [rewrite !len_app, len_u16_be, Hpbl; change (len [r]) with 1; lia |].
-    rewrite advance_encoded. cbn [bind]. rewrite <- app_assoc. rewrite read_u16_u16_be by exact Hpk. cbn [bind].
+    rewrite advance_encoded. cbn [bind]. rewrite read_u16_u16_be by exact Hpk. cbn [bind].
     replace (2 + 1 + props_len ack_tab ps =? 2) with false by lia.
     cbn [app]. rewrite read_u8_cons. cbn [bind].
     replace (2 + 1 + props_len ack_tab ps <? 4) with false by lia. rewrite Hr.
@@ -213,3 +213,626 @@ Lemma rt5_pubrel : forall fl pkid r ps, wf5 fl (PubRel5 pkid r ps) = true -> rt5
 Proof. rt5_ack 98 6 PubRel5 pubrel_reasons. Qed.
 Lemma rt5_pubcomp : forall fl pkid r ps, wf5 fl (PubComp5 pkid r ps) = true -> rt5_ok fl (PubComp5 pkid r ps).
 Proof. rt5_ack 112 7 PubComp5 pubrel_reasons. Qed.
+
+(* ------------------------------------------------------------------ subscribe *)
+
+Lemma filter5_options : forall (q : qos) (nl pr : bool) (rule : N), rule < 3 ->
+  let o := N.lor (N.lor (N.lor (N.lor 0 (qos_num q)) (if nl then 4 else 0)) (if pr then 8 else 0)) (N.shiftl rule 4) in
+  N.land (N.shiftr o 4) 3 = rule /\ qos_of (N.land o 3) = @Ok err qos q /\ bit o 4 = nl /\ bit o 8 = pr.
+Proof.
+  intros q nl pr rule Hr. cbv zeta.
+  assert (Hc : rule = 0 \/ rule = 1 \/ rule = 2) by lia. clear Hr.
+  destruct Hc as [Hc | [Hc | Hc]]; subst rule; destruct q, nl, pr; vm_compute; repeat split.
+Qed.
+
+Lemma filters5_read_S : forall fuel s, is_empty s = false ->
+  filters5_read (S fuel) s =
+  (do (path, s1) <- read_mqtt_string s;
+   do (options, s2) <- read_u8 s1;
+   let rule := N.land (N.shiftr options 4) 3 in
+   if 2 <? rule then Err InvalidRetainForwardRule
+   else do q <- qos_of (N.land options 3);
+        do r <- filters5_read fuel s2;
+        Ok (Filter5 path q (bit options 4) (bit options 8) rule :: r)).
+Proof. intros fuel s H. cbn [filters5_read]. rewrite H. reflexivity. Qed.
+
+Lemma filter5_bytes_length : forall f, (3 <= length (filter5_bytes f))%nat.
+Proof.
+  intros f. unfold filter5_bytes, write_mqtt_string, write_mqtt_bytes, u16_be.
+  rewrite !app_length. cbn [length]. lia.
+Qed.
+
+Lemma filters5_read_ok : forall fs fuel,
+  forallb repr_filter5 fs = true -> forallb (fun f => str_ok (f5_path f)) fs = true ->
+  (length (flat_map filter5_bytes fs) <= fuel)%nat ->
+  filters5_read fuel (flat_map filter5_bytes fs) = Ok fs.
+Proof.
+  induction fs as [| f fs IH]; intros fuel Hr Hs Hf.
+  - destruct fuel; reflexivity.
+  - cbn [forallb] in Hr, Hs. split_andb. cbn [flat_map] in Hf |- *.
+    rewrite app_length in Hf. pose proof (filter5_bytes_length f) as H3.
+    destruct fuel as [| fuel]; [lia |].
+    rewrite filters5_read_S.
+    2:{ unfold filter5_bytes, write_mqtt_string, write_mqtt_bytes, u16_be. reflexivity. }
+    destruct f as [path q nl pr rule]. unfold filter5_bytes at 1. cbn [f5_path f5_qos f5_nolocal f5_preserve_retain f5_rule] in *.
+    rewrite <- app_assoc.
+    match goal with H : repr_filter5 _ = true |- _ => unfold repr_filter5 in H; cbn [f5_path f5_rule] in H; apply andb_prop in H; destruct H as [Hu Hrule] end.
+    rewrite read_mqtt_string_write; [| apply str_ok_len; assumption | exact Hu].
+    cbn [bind app]. rewrite read_u8_cons. cbn [bind].
+    destruct (filter5_options q nl pr rule ltac:(lia)) as (Ho1 & Ho2 & Ho4 & Ho5).
+    cbv zeta. rewrite Ho1, Ho2, Ho4, Ho5. replace (2 <? rule) with false by lia. cbn [bind].
+    rewrite IH; [reflexivity | assumption | assumption | lia].
+Qed.
+
+Lemma len_flat_map_filters5 : forall fs, len (flat_map filter5_bytes fs) = sum_map filter5_len fs.
+Proof.
+  induction fs as [| f fs IH]; [reflexivity |].
+  cbn [flat_map sum_map]. rewrite len_app, IH. unfold filter5_bytes, filter5_len, write_mqtt_string.
+  rewrite len_app, len_write_mqtt_bytes. change (len [_]) with 1. lia.
+Qed.
+
+Lemma header5_ok : forall b1 n body rl, write_remaining_length n = Ok rl -> len rl = len_len n ->
+  header5 b1 n (Ok body) = Ok (b1 :: rl ++ body, 1 + len_len n + n).
+Proof. intros b1 n body rl Hw Hl. unfold header5. rewrite Hw. cbn [bind]. rewrite Hl. reflexivity. Qed.
+
+Lemma rt5_subscribe : forall fl pkid fs ps, wf5 fl (Subscribe5 pkid fs ps) = true -> rt5_ok fl (Subscribe5 pkid fs ps).
+Proof.
+  intros fl pkid fs ps Hwf. unfold wf5 in Hwf. split_andb.
+  match goal with H : (plen5 _ <=? MAX_REMAINING) = true |- _ => rename H into Hlen end.
+  match goal with H : repr5 _ _ = true |- _ => rename H into Hrepr end.
+  match goal with H : u16_ok pkid = true |- _ => apply u16_ok_lt in H; rename H into Hpk end.
+  match goal with H : negb (nil_b fs) = true |- _ => rename H into Hne end.
+  match goal with H : wf_props' subscribe_tab ps = true |- _ => rename H into Hps end.
+  cbn [repr5] in Hrepr. apply andb_prop in Hrepr. destruct Hrepr as [Hrf Hrp]. unfold MAX_REMAINING in Hlen.
+  destruct (wf_props'_ok_all subscribe_tab ps Hrp Hps) as (pb & Hpb & Hpbl & Hrd).
+  set (n := plen5 (Subscribe5 pkid fs ps)) in *.
+  set (body := u16_be pkid ++ pb ++ flat_map filter5_bytes fs).
+  assert (Hn : len body = n).
+  { subst body n. cbn [plen5]. rewrite !len_app, len_u16_be, Hpbl, len_flat_map_filters5. lia. }
+  destruct (wrl_ok n ltac:(lia)) as (rl & Hrl & Hrll).
+  exists (130 :: rl ++ body). split; [| split].
+  - cbn [write_body5]. fold n. rewrite Hpb. cbn [bind]. apply header5_ok; assumption.
+  - rewrite len_cons, len_app, Hn, Hrll. cbn [size5]. fold n. lia.
+  - intros max rest Hm. fold n in Hm.
+    apply (framed5_rt fl 130 n body _ rl Hrl Hn); [| exact Hm].
+    unfold read_body5_raw. change (packet_type _) with (@Ok err N 8). cbn [bind remaining_len].
+    replace (n =? 0) with false by (rewrite <- Hn; subst body; rewrite len_app, len_u16_be; lia). cbv iota.
+    unfold subscribe5_read. cbn [fixed_header_len]. rewrite advance_encoded. cbn [bind]. subst body.
+    rewrite read_u16_u16_be by exact Hpk. cbn [bind].
+    change (q_varint_extra CURRENT) with 0. rewrite Hrd. cbn [bind].
+    rewrite filters5_read_ok; [| assumption | assumption | lia].
+    cbn [bind norm5]. destruct fs; [discriminate | reflexivity].
+Qed.
+
+(* ------------------------------------------------------------------ suback *)
+
+Lemma other_rc_cases : forall b, other_rc_known b = true ->
+  b = 131 \/ b = 135 \/ b = 143 \/ b = 145 \/ b = 151 \/ b = 158 \/ b = 161 \/ b = 162.
+Proof. intros b H. unfold other_rc_known in H. cbn [existsb] in H. lia. Qed.
+
+Lemma rc5_reason_ok : forall fl c, repr_rc5 fl c = true -> rc5_reason fl (rc_code c) = Ok (norm_rc5 fl c).
+Proof.
+  intros fl c H. destruct c as [q | | q | | b]; cbn [rc_code norm_rc5 repr_rc5] in *.
+  - destruct fl, q; reflexivity.
+  - reflexivity.
+  - destruct fl; [discriminate |]. destruct q; reflexivity.
+  - reflexivity.
+  - destruct (other_rc_cases b H) as [-> | [-> | [-> | [-> | [-> | [-> | [-> | ->]]]]]]]; reflexivity.
+Qed.
+
+Lemma codes5_read_ok : forall fl cs, forallb (repr_rc5 fl) cs = true ->
+  codes5_read fl (map rc_code cs) = Ok (map (norm_rc5 fl) cs).
+Proof.
+  intros fl. induction cs as [| c cs IH]; intros H; [reflexivity |].
+  cbn [forallb] in H. split_andb. cbn [map codes5_read].
+  rewrite rc5_reason_ok by assumption. cbn [bind]. rewrite IH by assumption. reflexivity.
+Qed.
+
+Lemma rt5_suback : forall fl pkid cs ps, wf5 fl (SubAck5 pkid cs ps) = true -> rt5_ok fl (SubAck5 pkid cs ps).
+Proof.
+  intros fl pkid cs ps Hwf. unfold wf5 in Hwf. split_andb.
+  match goal with H : (plen5 _ <=? MAX_REMAINING) = true |- _ => rename H into Hlen end.
+  match goal with H : repr5 _ _ = true |- _ => rename H into Hrepr end.
+  match goal with H : u16_ok pkid = true |- _ => apply u16_ok_lt in H; rename H into Hpk end.
+  match goal with H : negb (nil_b cs) = true |- _ => rename H into Hne end.
+  match goal with H : wf_props' ack_tab ps = true |- _ => rename H into Hps end.
+  cbn [repr5] in Hrepr. apply andb_prop in Hrepr. destruct Hrepr as [Hrc Hrp]. unfold MAX_REMAINING in Hlen.
+  destruct (wf_props'_ok_all ack_tab ps Hrp Hps) as (pb & Hpb & Hpbl & Hrd).
+  set (n := plen5 (SubAck5 pkid cs ps)) in *.
+  set (body := u16_be pkid ++ pb ++ map rc_code cs).
+  assert (Hn : len body = n).
+  { subst body n. cbn [plen5]. rewrite !len_app, len_u16_be, Hpbl. lia. }
+  destruct (wrl_ok n ltac:(lia)) as (rl & Hrl & Hrll).
+  exists (144 :: rl ++ body). split; [| split].
+  - cbn [write_body5]. fold n. rewrite Hpb. cbn [bind]. apply header5_ok; assumption.
+  - rewrite len_cons, len_app, Hn, Hrll. cbn [size5]. fold n. lia.
+  - intros max rest Hm. fold n in Hm.
+    apply (framed5_rt fl 144 n body _ rl Hrl Hn); [| exact Hm].
+    unfold read_body5_raw. change (packet_type _) with (@Ok err N 9). cbn [bind remaining_len].
+    replace (n =? 0) with false by (rewrite <- Hn; subst body; rewrite len_app, len_u16_be; lia). cbv iota.
+    unfold suback5_read. cbn [fixed_header_len]. rewrite advance_encoded. cbn [bind]. subst body.
+    rewrite read_u16_u16_be by exact Hpk. cbn [bind].
+    change (q_varint_extra CURRENT) with 0. rewrite Hrd. cbn [bind].
+    destruct cs as [| c cs]; [discriminate |]. cbn [map is_empty].
+    change (rc_code c :: map rc_code cs) with (map rc_code (c :: cs)).
+    rewrite codes5_read_ok by assumption. reflexivity.
+Qed.
+
+(* ------------------------------------------------------------------ unsubscribe / unsuback *)
+
+Lemma strings_read_ok : forall fs fuel,
+  forallb utf8_valid fs = true -> forallb str_ok fs = true ->
+  (length (flat_map write_mqtt_string fs) <= fuel)%nat ->
+  strings_read fuel (flat_map write_mqtt_string fs) = Ok fs.
+Proof.
+  induction fs as [| f fs IH]; intros fuel Hu Hs Hf.
+  - destruct fuel; reflexivity.
+  - cbn [forallb] in Hu, Hs. split_andb. cbn [flat_map] in Hf |- *. rewrite app_length in Hf.
+    assert (Hw2 : (2 <= length (write_mqtt_string f))%nat).
+    { unfold write_mqtt_string, write_mqtt_bytes, u16_be. rewrite app_length. cbn [length]. lia. }
+    destruct fuel as [| fuel]; [lia |]. cbn [strings_read].
+    replace (is_empty (write_mqtt_string f ++ flat_map write_mqtt_string fs)) with false
+      by (unfold write_mqtt_string, write_mqtt_bytes, u16_be; reflexivity).
+    rewrite read_mqtt_string_write; [| apply str_ok_len; assumption | assumption]. cbn [bind].
+    rewrite IH; [reflexivity | assumption | assumption | lia].
+Qed.
+
+Lemma len_flat_map_strings : forall fs, len (flat_map write_mqtt_string fs) = sum_map (fun f => 2 + len f) fs.
+Proof.
+  induction fs as [| f fs IH]; [reflexivity |].
+  cbn [flat_map sum_map]. rewrite len_app, IH. unfold write_mqtt_string. rewrite len_write_mqtt_bytes. lia.
+Qed.
+
+Lemma rt5_unsubscribe : forall fl pkid fs ps, wf5 fl (Unsubscribe5 pkid fs ps) = true -> rt5_ok fl (Unsubscribe5 pkid fs ps).
+Proof.
+  intros fl pkid fs ps Hwf. unfold wf5 in Hwf. split_andb.
+  match goal with H : (plen5 _ <=? MAX_REMAINING) = true |- _ => rename H into Hlen end.
+  match goal with H : repr5 _ _ = true |- _ => rename H into Hrepr end.
+  match goal with H : u16_ok pkid = true |- _ => apply u16_ok_lt in H; rename H into Hpk end.
+  match goal with H : wf_props' unsubscribe_tab ps = true |- _ => rename H into Hps end.
+  cbn [repr5] in Hrepr. apply andb_prop in Hrepr. destruct Hrepr as [Hrf Hrp]. unfold MAX_REMAINING in Hlen.
+  destruct (wf_props'_ok_all unsubscribe_tab ps Hrp Hps) as (pb & Hpb & Hpbl & Hrd).
+  set (n := plen5 (Unsubscribe5 pkid fs ps)) in *.
+  set (body := u16_be pkid ++ pb ++ flat_map write_mqtt_string fs).
+  assert (Hn : len body = n).
+  { subst body n. cbn [plen5]. rewrite !len_app, len_u16_be, Hpbl, len_flat_map_strings. lia. }
+  destruct (wrl_ok n ltac:(lia)) as (rl & Hrl & Hrll).
+  exists (162 :: rl ++ body). split; [| split].
+  - cbn [write_body5]. fold n. rewrite Hpb. cbn [bind]. apply header5_ok; assumption.
+  - rewrite len_cons, len_app, Hn, Hrll. cbn [size5]. fold n. lia.
+  - intros max rest Hm. fold n in Hm.
+    apply (framed5_rt fl 162 n body _ rl Hrl Hn); [| exact Hm].
+    unfold read_body5_raw. change (packet_type _) with (@Ok err N 10). cbn [bind remaining_len].
+    replace (n =? 0) with false by (rewrite <- Hn; subst body; rewrite len_app, len_u16_be; lia). cbv iota.
+    unfold unsubscribe5_read. cbn [fixed_header_len]. rewrite advance_encoded. cbn [bind]. subst body.
+    rewrite read_u16_u16_be by exact Hpk. cbn [bind].
+    change (q_varint_extra CURRENT) with 0. rewrite Hrd. cbn [bind].
+    rewrite strings_read_ok; [reflexivity | assumption | assumption | lia].
+Qed.
+
+Lemma reasons_read_ok : forall rs, forallb (fun r => mem r unsuback_reasons) rs = true -> reasons_read rs = Ok rs.
+Proof.
+  induction rs as [| r rs IH]; intros H; [reflexivity |].
+  cbn [forallb] in H. split_andb. cbn [reasons_read].
+  match goal with Hm : mem r unsuback_reasons = true |- _ => rewrite Hm end.
+  rewrite IH by assumption. reflexivity.
+Qed.
+
+Lemma rt5_unsuback : forall fl pkid rs ps, wf5 fl (UnsubAck5 pkid rs ps) = true -> rt5_ok fl (UnsubAck5 pkid rs ps).
+Proof.
+  intros fl pkid rs ps Hwf. unfold wf5 in Hwf. split_andb.
+  match goal with H : (plen5 _ <=? MAX_REMAINING) = true |- _ => rename H into Hlen end.
+  match goal with H : repr5 _ _ = true |- _ => rename H into Hrepr end.
+  match goal with H : u16_ok pkid = true |- _ => apply u16_ok_lt in H; rename H into Hpk end.
+  match goal with H : negb (nil_b rs) = true |- _ => rename H into Hne end.
+  match goal with H : wf_props' ack_tab ps = true |- _ => rename H into Hps end.
+  cbn [repr5] in Hrepr. apply andb_prop in Hrepr. destruct Hrepr as [Hrr Hrp]. unfold MAX_REMAINING in Hlen.
+  destruct (wf_props'_ok_all ack_tab ps Hrp Hps) as (pb & Hpb & Hpbl & Hrd).
+  set (n := plen5 (UnsubAck5 pkid rs ps)) in *.
+  set (body := u16_be pkid ++ pb ++ rs).
+  assert (Hn : len body = n).
+  { subst body n. cbn [plen5]. rewrite !len_app, len_u16_be, Hpbl. lia. }
+  destruct (wrl_ok n ltac:(lia)) as (rl & Hrl & Hrll).
+  exists (176 :: rl ++ body). split; [| split].
+  - cbn [write_body5]. fold n. rewrite Hpb. cbn [bind]. apply header5_ok; assumption.
+  - rewrite len_cons, len_app, Hn, Hrll. cbn [size5]. fold n. lia.
+  - intros max rest Hm. fold n in Hm.
+    apply (framed5_rt fl 176 n body _ rl Hrl Hn); [| exact Hm].
+    unfold read_body5_raw. change (packet_type _) with (@Ok err N 11). cbn [bind remaining_len].
+    replace (n =? 0) with false by (rewrite <- Hn; subst body; rewrite len_app, len_u16_be; lia). cbv iota.
+    unfold unsuback5_read. cbn [fixed_header_len]. rewrite advance_encoded. cbn [bind]. subst body.
+    rewrite read_u16_u16_be by exact Hpk. cbn [bind].
+    change (q_varint_extra CURRENT) with 0. rewrite Hrd. cbn [bind].
+    destruct rs as [| r rs]; [discriminate |]. cbn [is_empty].
+    rewrite reasons_read_ok by assumption. reflexivity.
+Qed.
+
+(* ------------------------------------------------------------------ disconnect *)
+
+Lemma rt5_disconnect : forall fl r ps, wf5 fl (Disconnect5 r ps) = true -> rt5_ok fl (Disconnect5 r ps).
+Proof.
+  intros fl r ps Hwf. unfold wf5 in Hwf. split_andb.
+  match goal with H : (plen5 _ <=? MAX_REMAINING) = true |- _ => rename H into Hlen end.
+  match goal with H : repr5 _ _ = true |- _ => rename H into Hrepr end.
+  match goal with H : wf_props' disconnect_tab ps = true |- _ => rename H into Hps end.
+  cbn [repr5] in Hrepr. apply andb_prop in Hrepr. destruct Hrepr as [Hrr Hrp]. unfold MAX_REMAINING in Hlen.
+  destruct (short_ack r ps) eqn:Es.
+  - (* e0 00 *)
+    unfold short_ack in Es. apply andb_prop in Es. destruct Es as [Er Ens]. destruct ps; [discriminate |].
+    replace r with 0 by lia.
+    exists [224; 0]. split; [reflexivity |]. split; [reflexivity |].
+    intros max rest _. apply rt5_empty. destruct fl; reflexivity.
+  - destruct (wf_props'_ok_all disconnect_tab ps Hrp Hps) as (pb & Hpb & Hpbl & Hrd).
+    pose proof (props_len_pos disconnect_tab ps) as Hpos.
+    set (n := plen5 (Disconnect5 r ps)) in *.
+    assert (Hnv : n = 1 + props_len disconnect_tab ps) by (subst n; cbn [plen5]; rewrite Es; reflexivity).
+    set (body := [r] ++ pb).
+    assert (Hn : len body = n).
+    { subst body. rewrite len_app, Hpbl, Hnv. reflexivity. }
+    destruct (wrl_ok n ltac:(lia)) as (rl & Hrl & Hrll).
+    exists (224 :: rl ++ body). split; [| split].
+    + cbn [write_body5]. rewrite Es. fold n. rewrite Hpb. cbn [bind]. apply header5_ok; assumption.
+    + rewrite len_cons, len_app, Hn, Hrll. cbn [size5]. fold n. lia.
+    + intros max rest Hm. fold n in Hm.
+      apply (framed5_rt fl 224 n body _ rl Hrl Hn); [| exact Hm].
+      unfold read_body5_raw. change (packet_type _) with (@Ok err N 14). cbn [bind remaining_len].
+      replace (n =? 0) with false by lia. cbv iota.
+      unfold disconnect5_read. cbn [fixed_header_len byte1 remaining_len]. rewrite advance_encoded. cbn [bind].
+      change (negb (N.shiftr 224 4 =? 14)) with false. change (negb (N.land 224 15 =? 0)) with false. cbv iota.
+      replace (n =? 0) with false by lia. subst body. cbn [app]. rewrite read_u8_cons. cbn [bind].
+      rewrite Hrr. cbn [negb]. change (q_varint_extra CURRENT) with 0.
+      rewrite <- (app_nil_r pb). rewrite Hrd. reflexivity.
+Qed.
+
+(* ------------------------------------------------------------------ connack *)
+
+Lemma rt5_connack : forall fl sp code ps, wf5 fl (ConnAck5 sp code ps) = true -> rt5_ok fl (ConnAck5 sp code ps).
+Proof.
+  intros fl sp code ps Hwf. unfold wf5 in Hwf. split_andb.
+  match goal with H : (plen5 _ <=? MAX_REMAINING) = true |- _ => rename H into Hlen end.
+  match goal with H : repr5 _ _ = true |- _ => rename H into Hrepr end.
+  match goal with H : mem code connack_codes = true |- _ => rename H into Hcode end.
+  match goal with H : wf_props' connack_tab ps = true |- _ => rename H into Hps end.
+  cbn [repr5] in Hrepr. apply andb_prop in Hrepr. destruct Hrepr as [_ Hrp]. unfold MAX_REMAINING in Hlen.
+  destruct (wf_props'_ok_all connack_tab ps Hrp Hps) as (pb & Hpb & Hpbl & Hrd).
+  set (n := plen5 (ConnAck5 sp code ps)) in *.
+  set (body := [b2n sp; code] ++ pb).
+  assert (Hn : len body = n).
+  { subst body n. cbn [plen5]. rewrite len_app, Hpbl. change (len [b2n sp; code]) with 2. lia. }
+  destruct (wrl_ok n ltac:(lia)) as (rl & Hrl & Hrll).
+  exists (32 :: rl ++ body). split; [| split].
+  - cbn [write_body5]. fold n. rewrite Hrl. cbn [bind]. rewrite Hcode. cbn [negb]. rewrite Hpb. cbn [bind].
+    rewrite Hrll. cbn [size5]. fold n. reflexivity.
+  - rewrite len_cons, len_app, Hn, Hrll. cbn [size5]. fold n. lia.
+  - intros max rest Hm. fold n in Hm.
+    apply (framed5_rt fl 32 n body _ rl Hrl Hn); [| exact Hm].
+    unfold read_body5_raw. change (packet_type _) with (@Ok err N 2). cbn [bind remaining_len].
+    replace (n =? 0) with false by (rewrite <- Hn; subst body; rewrite len_app; change (len [b2n sp; code]) with 2; lia). cbv iota.
+    unfold connack5_read. cbn [fixed_header_len]. rewrite advance_encoded. cbn [bind]. subst body.
+    cbn [app]. rewrite read_u8_cons. cbn [bind]. rewrite read_u8_cons. cbn [bind].
+    change (q_varint_extra CURRENT) with 0. rewrite <- (app_nil_r pb). rewrite Hrd. cbn [bind].
+    rewrite Hcode. cbn [norm5]. destruct sp; reflexivity.
+Qed.
+
+(* ------------------------------------------------------------------ connect *)
+
+Definition will5_key (w : option will5) := option_map (fun w => (w5_qos w, w5_retain w)) w.
+
+Definition connect5_body (f ka : N) (cid pb wb lb : list N) : list N :=
+  write_mqtt_string MQTT ++ [5] ++ [f] ++ u16_be ka ++ pb ++ write_mqtt_string cid ++ wb ++ lb.
+
+Lemma connect5_write_eq : forall ka cid clean ps w l rl pb wb,
+  write_remaining_length (connect5_len (MkConnect5 ka cid clean ps w l)) = Ok rl ->
+  write_props connect_tab ps = Ok pb ->
+  match w with Some w0 => will5_bytes w0 = Ok wb | None => wb = [] end ->
+  connect5_write (MkConnect5 ka cid clean ps w l) =
+  Ok (16 :: rl ++ connect5_body (cflags clean (will5_key w) (login_key l)) ka cid pb wb (login_bytes_o l),
+      1 + len rl + connect5_len (MkConnect5 ka cid clean ps w l)).
+Proof.
+  intros ka cid clean ps w l rl pb wb Hw Hpb Hwb. unfold connect5_write. rewrite Hw. cbn [bind].
+  cbn [c5_keep_alive c5_client_id c5_clean_start c5_props c5_will c5_login]. rewrite Hpb. cbn [bind].
+  set (f0 := if clean then 2 else 0).
+  assert (Hflags : (match l with Some lg => N.lor (match w with Some w0 => N.lor f0 (will5_flags w0) | None => f0 end) (login_flags lg)
+                             | None => match w with Some w0 => N.lor f0 (will5_flags w0) | None => f0 end end)
+                   = cflags clean (will5_key w) (login_key l)).
+  { destruct w as [[tp m q r wps] |], l as [[u p] |]; reflexivity. }
+  unfold connect5_body.
+  destruct w as [w0 |], l as [lg |]; cbn [login_bytes_o] in *; try rewrite Hwb; try subst wb; cbn [bind]; rewrite <- Hflags;
+    cbn [app]; repeat rewrite <- app_assoc; cbn [app]; rewrite set_index_connect; cbn [bind];
+    repeat rewrite <- app_assoc; cbn [app]; try rewrite app_nil_r; reflexivity.
+Qed.
+
+Lemma will5_read_ok : forall f w wb r,
+  (N.land f 4 =? 0) = (match will5_key w with None => true | Some _ => false end) ->
+  (will5_key w = None -> (N.land f 56 =? 0) = true) ->
+  (forall q b, will5_key w = Some (q, b) -> qos_of (N.shiftr (N.land f 24) 3) = Ok q /\ bit f 32 = b) ->
+  wf_will5 w = true ->
+  match w with
+  | Some w0 => repr_props will_tab (w5_props w0) = true /\
+               exists wpb, write_props will_tab (w5_props w0) = Ok wpb /\
+                           wb = wpb ++ write_mqtt_bytes (w5_topic w0) ++ write_mqtt_bytes (w5_message w0)
+  | None => wb = []
+  end ->
+  will5_read CURRENT f (wb ++ r) =
+  Ok (match w with
+      | Some w0 => Some (Will5 (w5_topic w0) (w5_message w0) (w5_qos w0) (w5_retain w0) (norm_props (w5_props w0)))
+      | None => None
+      end, r).
+Proof.
+  intros f w wb r H4 H56 Hq Hwf Hwb. unfold will5_read. rewrite H4.
+  destruct w as [[tp ms q b wps] |]; cbn [will5_key option_map w5_topic w5_message w5_qos w5_retain w5_props] in *.
+  - unfold wf_will5 in Hwf. cbn [w5_topic w5_message w5_props] in Hwf. split_andb. destruct Hwb as (Hrp & wpb & Hwpb & ->).
+    destruct (wf_props'_ok_all will_tab wps Hrp ltac:(assumption)) as (pb & Hpb & _ & Hrd).
+    assert (wpb = pb) by congruence. subst wpb. change (q_varint_extra CURRENT) with 0.
+    repeat rewrite <- app_assoc. rewrite Hrd. cbn [bind].
+    rewrite read_mqtt_bytes_write by (apply str_ok_len; assumption). cbn [bind].
+    rewrite read_mqtt_bytes_write by (apply str_ok_len; assumption). cbn [bind].
+    destruct (Hq q b eq_refl) as [Hq1 Hq2]. rewrite Hq1, Hq2. reflexivity.
+  - subst wb. rewrite (H56 eq_refl). reflexivity.
+Qed.
+
+Lemma rt5_connect : forall fl c, wf5 fl (Connect5 c) = true -> rt5_ok fl (Connect5 c).
+Proof.
+  intros fl [ka cid clean ps w l] Hwf. unfold wf5 in Hwf. split_andb.
+  match goal with H : (plen5 _ <=? MAX_REMAINING) = true |- _ => rename H into Hlen end.
+  match goal with H : repr5 _ _ = true |- _ => rename H into Hrepr end.
+  cbn [c5_keep_alive c5_client_id c5_clean_start c5_props c5_will c5_login] in *.
+  match goal with H : u16_ok ka = true |- _ => apply u16_ok_lt in H; rename H into Hka end.
+  match goal with H : str_ok cid = true |- _ => rename H into Hcid end.
+  match goal with H : wf_will5 w = true |- _ => rename H into Hww end.
+  match goal with H : wf_login l = true |- _ => rename H into Hwl end.
+  match goal with H : wf_props' connect_tab ps = true |- _ => rename H into Hps end.
+  cbn [repr5 c5_client_id c5_props c5_will c5_login] in Hrepr. split_andb.
+  match goal with H : utf8_valid cid = true |- _ => rename H into Hucid end.
+  match goal with H : repr_props connect_tab ps = true |- _ => rename H into Hrp end.
+  match goal with H : repr_login l = true |- _ => rename H into Hrl end.
+  match goal with H : match w with Some _ => _ | None => true end = true |- _ => rename H into Hrw end.
+  set (c := MkConnect5 ka cid clean ps w l) in *.
+  cbn [plen5] in Hlen. unfold MAX_REMAINING in Hlen. set (n := connect5_len c) in *.
+  destruct (wf_props'_ok_all connect_tab ps Hrp Hps) as (pb & Hpb & Hpbl & Hrd).
+  (* the will section *)
+  assert (Hwill : exists wb,
+            match w with
+            | Some w0 => repr_props will_tab (w5_props w0) = true /\
+                         exists wpb, write_props will_tab (w5_props w0) = Ok wpb /\
+                                     wb = wpb ++ write_mqtt_bytes (w5_topic w0) ++ write_mqtt_bytes (w5_message w0)
+            | None => wb = []
+            end /\
+            len wb = match w with Some w0 => will5_len w0 | None => 0 end).
+  { destruct w as [w0 |].
+    - unfold wf_will5 in Hww. split_andb.
+      destruct (wf_props'_ok_all will_tab (w5_props w0) Hrw ltac:(assumption)) as (wpb & Hwpb & Hwpbl & _).
+      exists (wpb ++ write_mqtt_bytes (w5_topic w0) ++ write_mqtt_bytes (w5_message w0)).
+      split; [split; [exact Hrw | exists wpb; split; [exact Hwpb | reflexivity]] |].
+      unfold will5_len. rewrite !len_app, !len_write_mqtt_bytes, Hwpbl. lia.
+    - exists []. split; reflexivity. }
+  destruct Hwill as (wb & Hwb & Hwbl).
+  set (f := cflags clean (will5_key w) (login_key l)).
+  destruct (cflags_facts clean (will5_key w) (login_key l)) as (Hf2 & Hf4 & Hf56 & Hfq & Hf128 & Hf64).
+  fold f in Hf2, Hf4, Hf56, Hfq, Hf128, Hf64.
+  destruct (login_read_ok Client f l Hf128 Hf64 Hwl Hrl) as (lr & Hlogin).
+  set (body := connect5_body f ka cid pb wb (login_bytes_o l)).
+  assert (Hn : len body = n).
+  { subst body n c. unfold connect5_body, connect5_len.
+    cbn [c5_keep_alive c5_client_id c5_clean_start c5_props c5_will c5_login].
+    rewrite !len_app. unfold write_mqtt_string. rewrite !len_write_mqtt_bytes, len_u16_be, Hpbl, Hwbl.
+    change (len MQTT) with 4. change (len [5]) with 1. change (len [f]) with 1.
+    destruct l as [lg |]; cbn [login_bytes_o]; unfold login_len, login_bytes;
+      rewrite ?len_app, ?len_nil;
+      try (destruct (is_empty (l_username lg)), (is_empty (l_password lg)); unfold write_mqtt_string;
+           rewrite ?len_write_mqtt_bytes, ?len_nil); lia. }
+  destruct (wrl_ok n ltac:(lia)) as (rl & Hrl' & Hrll).
+  exists (16 :: rl ++ body). split; [| split].
+  - cbn [write_body5]. subst c.
+    rewrite (connect5_write_eq ka cid clean ps w l rl pb wb Hrl' Hpb).
+    2:{ destruct w as [w0 |]; [| exact Hwb]. destruct Hwb as (_ & wpb & Hwpb & ->).
+        unfold will5_bytes. rewrite Hwpb. reflexivity. }
+    fold f. fold body. cbn [size5 plen5]. fold n. rewrite Hrll. reflexivity.
+  - rewrite len_cons, len_app, Hn, Hrll. cbn [size5 plen5]. fold c. fold n. lia.
+  - intros max rest Hm. cbn [plen5] in Hm. fold n in Hm.
+    apply (framed5_rt fl 16 n body _ rl Hrl' Hn); [| exact Hm].
+    unfold read_body5_raw. change (packet_type _) with (@Ok err N 1). cbn [bind remaining_len].
+    replace (n =? 0) with false by (subst n; unfold connect5_len; lia). cbv iota.
+    unfold connect5_read. cbn [fixed_header_len]. rewrite advance_encoded. cbn [bind].
+    subst body. unfold connect5_body.
+    rewrite read_mqtt_string_write; [| vm_compute; discriminate | exact utf8_MQTT].
+    cbn [bind app]. rewrite read_u8_cons. cbn [bind]. change (str_eqb MQTT MQTT) with true. cbn [negb].
+    change (negb (5 =? 5)) with false. cbv iota.
+    rewrite read_u8_cons. cbn [bind]. rewrite Hf2.
+    rewrite read_u16_u16_be by exact Hka. cbn [bind].
+    change (q_varint_extra CURRENT) with 0. rewrite Hrd. cbn [bind].
+    rewrite read_mqtt_string_write; [| apply str_ok_len; exact Hcid | exact Hucid]. cbn [bind].
+    rewrite (will5_read_ok f w wb (login_bytes_o l)); try assumption. cbn [bind].
+    rewrite Hlogin. cbn [bind]. subst c. reflexivity.
+Qed.
+
+(* ------------------------------------------------------------------ assembly *)
+
+Theorem rt5_body : forall fl p, wf5 fl p = true -> rt5_ok fl p.
+Proof.
+  intros fl p Hwf. destruct p.
+  - apply rt5_connect; exact Hwf.
+  - apply rt5_connack; exact Hwf.
+  - apply rt5_publish; exact Hwf.
+  - apply rt5_puback; exact Hwf.
+  - apply rt5_pubrec; exact Hwf.
+  - apply rt5_pubrel; exact Hwf.
+  - apply rt5_pubcomp; exact Hwf.
+  - apply rt5_subscribe; exact Hwf.
+  - apply rt5_suback; exact Hwf.
+  - apply rt5_unsubscribe; exact Hwf.
+  - apply rt5_unsuback; exact Hwf.
+  - apply rt5_pingreq.
+  - apply rt5_pingresp.
+  - apply rt5_disconnect; exact Hwf.
+Qed.
+
+Lemma wf5_repr : forall fl p, wf5 fl p = true -> repr5 fl p = true.
+Proof. intros fl p H. unfold wf5 in H. split_andb. assumption. Qed.
+
+(** C04 round trip, MQTT 5 (all 14 packet types both crates implement, every property present or
+    absent): a well-formed packet is encoded successfully (client: when size() <= max_size, if one
+    is set), the count returned = size = bytes written, and decoding [bytes ++ rest] with any
+    max >= the remaining length (or none) gives back the packet's content and exactly [rest]. *)
+Theorem rt_v5 : forall fl p maxo, wf5 fl p = true ->
+  (fl = Client -> forall mx, maxo = Some mx -> size5 p <= mx) ->
+  exists bs, write5 fl maxo p = Ok (bs, size5 p) /\ len bs = size5 p /\
+    forall max rest, plen5 p <= eff_max max -> read5 fl (bs ++ rest) max = Packet (norm5 fl p) rest.
+Proof.
+  intros fl p maxo Hwf Hm. rewrite write5_reduce by (try apply wf5_repr; assumption).
+  apply rt5_body. exact Hwf.
+Qed.
+
+Lemma write5_client_too_large : forall p mx, repr5 Client p = true -> mx < size5 p ->
+  write5 Client (Some mx) p = Err OutgoingPacketTooLarge.
+Proof.
+  intros p mx Hr Hm. unfold write5. rewrite Hr. cbn [negb].
+  replace (mx <? size5 p) with true by lia. reflexivity.
+Qed.
+
+(* ------------------------------------------------------------------ interoperability *)
+
+(** the same SUBACK codes, written with the constructors decoder [fl] produces *)
+Definition recode (fl : flavour) (p : packet5) : packet5 :=
+  match p with
+  | SubAck5 pk cs ps => SubAck5 pk (map (norm_rc5 fl) cs) ps
+  | p => p
+  end.
+
+Lemma rc_code_norm5 : forall fl cs, map rc_code (map (norm_rc5 fl) cs) = map rc_code cs.
+Proof. intros fl cs. rewrite map_map. apply map_ext. intros c. destruct fl, c; reflexivity. Qed.
+
+Lemma write_body5_recode : forall fl p, write_body5 (recode fl p) = write_body5 p.
+Proof.
+  intros fl p. destruct p; try reflexivity. cbn [recode write_body5 plen5]. rewrite rc_code_norm5. reflexivity.
+Qed.
+
+Lemma norm5_recode : forall fl p, norm5 fl (recode fl p) = norm5 fl p.
+Proof.
+  intros fl p. destruct p; try reflexivity. cbn [recode norm5]. f_equal. rewrite map_map. apply map_ext.
+  intros c. destruct fl, c; reflexivity.
+Qed.
+
+Lemma repr_rc5_norm : forall fl1 fl2 cs, forallb (repr_rc5 fl1) cs = true ->
+  forallb (repr_rc5 fl2) (map (norm_rc5 fl2) cs) = true.
+Proof.
+  intros fl1 fl2. induction cs as [| c cs IH]; intros H; [reflexivity |].
+  cbn [forallb map] in *. apply andb_prop in H. destruct H as [Hc Hcs]. rewrite (IH Hcs), andb_true_r.
+  destruct c as [q | | q | | b]; cbn [norm_rc5 repr_rc5] in *; destruct fl2; try reflexivity;
+    destruct fl1; try exact Hc; try discriminate.
+Qed.
+
+Lemma wf5_recode : forall fl1 fl2 p, wf5 fl1 p = true -> wf5 fl2 (recode fl2 p) = true.
+Proof.
+  intros fl1 fl2 p Hwf. destruct p; try exact Hwf.
+  - (* connack: the v4-only codes are excluded by wf *)
+    unfold wf5 in *. cbn [recode repr5 plen5] in *. split_andb.
+    match goal with H : mem code connack_codes = true |- _ => rewrite H end. cbn [orb andb].
+    repeat (apply andb_true_intro; split); assumption.
+  - (* suback *)
+    unfold wf5 in *. cbn [recode repr5 plen5] in *. split_andb.
+    match goal with H : forallb (repr_rc5 fl1) codes = true |- _ => rename H into Hc end.
+    rewrite (repr_rc5_norm fl1 fl2 codes Hc). rewrite rc_code_norm5.
+    repeat (apply andb_true_intro; split); try assumption; try reflexivity.
+    destruct codes; [discriminate | reflexivity].
+Qed.
+
+(** C04 interop, MQTT 5: the bytes either crate's encoder produces for a well-formed packet are
+    decoded by the other crate's decoder (any [fl2]) to the same content, as written with [fl2]'s
+    constructors ([norm5 fl2]: SUBACK 0/1/2 are Success(qos) in the client and QoS0/1/2 in the broker). *)
+Theorem interop_v5 : forall fl1 fl2 p maxo, wf5 fl1 p = true ->
+  (fl1 = Client -> forall mx, maxo = Some mx -> size5 p <= mx) ->
+  exists bs, write5 fl1 maxo p = Ok (bs, size5 p) /\
+    forall max rest, plen5 p <= eff_max max -> read5 fl2 (bs ++ rest) max = Packet (norm5 fl2 p) rest.
+Proof.
+  intros fl1 fl2 p maxo Hwf Hm.
+  rewrite write5_reduce by (try apply wf5_repr; assumption).
+  destruct (rt5_body fl2 (recode fl2 p) (wf5_recode fl1 fl2 p Hwf)) as (bs & Hw & _ & Hr).
+  rewrite write_body5_recode in Hw. exists bs. split.
+  - rewrite Hw. destruct p; reflexivity || (cbn [recode size5 plen5]; rewrite rc_code_norm5; reflexivity).
+  - intros max rest Hmax. rewrite <- norm5_recode. apply Hr.
+    destruct p; try exact Hmax. cbn [recode plen5] in *. rewrite rc_code_norm5. exact Hmax.
+Qed.
+
+(* ------------------------------------------------------------------ examples *)
+
+Definition ex5_props_pub : props :=
+  Some [(1, VByte 1); (2, VU32 3600); (35, VU16 7); (8, VStr [114; 47; 116]); (9, VBin [0; 255]);
+        (38, VPair [107] [118]); (38, VPair [195; 169] []); (11, VVarInt 1); (11, VVarInt 268435455); (11, VVarInt 300);
+        (3, VStr [])].
+Definition ex5_publish : packet5 := Publish5 true ExactlyOnce true [97; 47; 255] 65535 [0; 255; 1] ex5_props_pub.
+Definition ex5_will : will5 := Will5 [119] [98; 121; 101] AtLeastOnce true (Some [(24, VU32 5); (3, VStr [116])]).
+Definition ex5_connect : packet5 :=
+  Connect5 (MkConnect5 60 [99] true (Some [(17, VU32 30); (33, VU16 10); (38, VPair [107] [118]); (21, VStr [109]); (22, VBin [1])])
+              (Some ex5_will) (Some (Login [117] [112]))).
+Definition ex5_connack : packet5 :=
+  ConnAck5 true 0 (Some [(17, VU32 0); (33, VU16 20); (36, VByte 1); (37, VByte 1); (39, VU32 1024); (18, VStr [105; 100]);
+                        (34, VU16 4); (31, VStr [111; 107]); (38, VPair [97] [98]); (40, VByte 1); (41, VByte 0); (42, VByte 1);
+                        (19, VU16 30); (26, VStr [105]); (28, VStr [115]); (21, VStr [109]); (22, VBin [2; 3])]).
+Definition ex5_subscribe : packet5 :=
+  Subscribe5 256 [Filter5 [97; 47; 43] AtLeastOnce true false 2; Filter5 [35] ExactlyOnce false true 0]
+             (Some [(11, VVarInt 16384); (38, VPair [107] [118])]).
+Definition ex5_suback_router : packet5 := SubAck5 7 [RcQoS AtLeastOnce; RcUnspecified; RcOther 143] (Some [(31, VStr [114])]).
+
+Example wf5_examples :
+  forallb (fun p => wf5 Client p && wf5 Broker p)
+    [ex5_connect; ex5_connack; ex5_publish; PubAck5 1 0 None; PubAck5 1 0 (Some []); PubRec5 255 145 None;
+     PubRel5 256 146 (Some [(31, VStr [120])]); PubComp5 65535 0 (Some [(38, VPair [107] [118])]);
+     ex5_subscribe; SubAck5 9 [RcSuccess ExactlyOnce; RcFailure; RcOther 162] None; Unsubscribe5 2 [[97; 47; 43]; []] (Some [(38, VPair [] [])]);
+     UnsubAck5 9 [0; 17; 145] None; PingReq5; PingResp5; Disconnect5 0 None;
+     Disconnect5 142 (Some [(17, VU32 9); (31, VStr [98; 121; 101]); (28, VStr [111])])] = true
+  /\ wf5 Broker ex5_suback_router = true /\ wf5 Client ex5_suback_router = false
+  /\ wf5 Client (recode Client ex5_suback_router) = true.
+Proof. vm_compute. repeat split. Qed.
+
+(* ------------------------------------------------------------------ the encoders / decoders as they were *)
+
+(** before 4a43eae: three subscription identifiers followed by an empty content type — the content
+    type is lost and its three bytes turn up in front of the payload (both crates) *)
+Definition ex5_subids : packet5 :=
+  Publish5 false AtMostOnce false [116] 0 [120] (Some [(11, VVarInt 1); (11, VVarInt 2); (11, VVarInt 3); (3, VStr [])]).
+
+Theorem rt_v5_subscription_ids_refuted :
+  wf5 Client ex5_subids = true /\ wf5 Broker ex5_subids = true /\
+  exists bs, write5 Client None ex5_subids = Ok (bs, 16) /\
+    read5_gen unfixed Client bs None =
+      Packet (Publish5 false AtMostOnce false [116] 0 [3; 0; 0; 120] (Some [(11, VVarInt 1); (11, VVarInt 2); (11, VVarInt 3)])) [] /\
+    read5_gen unfixed Broker bs (Some 100) = read5_gen unfixed Client bs None /\
+    read5 Client bs None = Packet ex5_subids [] /\ read5 Broker bs (Some 100) = Packet ex5_subids [].
+Proof. split; [reflexivity |]. split; [reflexivity |]. eexists. vm_compute. repeat split. Qed.
+
+(** before 3dc6acc: the client could not decode the DISCONNECT it (and the broker) writes for a
+    normal disconnection *)
+Theorem rt_v5_disconnect_refuted :
+  wf5 Client (Disconnect5 0 None) = true /\ write5 Client None (Disconnect5 0 None) = Ok ([224; 0], 2) /\
+  read5_gen unfixed Client [224; 0] None = Malformed PayloadRequired [] /\
+  read5_gen unfixed Broker [224; 0] (Some 100) = Packet (Disconnect5 0 None) [] /\
+  read5 Client [224; 0] None = Packet (Disconnect5 0 None) [].
+Proof. vm_compute. repeat split. Qed.
+
+(** asymmetries that remain (modelled, reproduced by the correspondence run) *)
+Example asym5_suback_constructors :   (* 0/1/2 decode to Success(qos) in the client, QoS0/1/2 in the broker; Failure = Unspecified = 0x80 *)
+  exists bs, write5 Broker None (SubAck5 7 [RcSuccess AtLeastOnce; RcFailure] None) = Ok (bs, 7) /\
+    read5 Client bs None = Packet (SubAck5 7 [RcSuccess AtLeastOnce; RcUnspecified] None) [] /\
+    read5 Broker bs (Some 100) = Packet (SubAck5 7 [RcQoS AtLeastOnce; RcUnspecified] None) [].
+Proof. eexists. vm_compute. repeat split. Qed.
+
+Example asym5_empty_properties :      (* Some(empty properties) is written as a zero length and read back as None; for an ack that also changes the form *)
+  write5 Client None (PubAck5 5 0 (Some [])) = Ok ([64; 4; 0; 5; 0; 0], 6) /\
+  write5 Client None (PubAck5 5 0 None) = Ok ([64; 2; 0; 5], 4) /\
+  read5 Client [64; 4; 0; 5; 0; 0] None = Packet (PubAck5 5 0 None) [].
+Proof. vm_compute. repeat split. Qed.
+
+Example asym5_ack_error_order :       (* invalid reason code AND invalid property: the client reports the property, the broker the reason *)
+  read5 Client [64; 6; 0; 5; 1; 2; 255; 0] None = Malformed InvalidPropertyType [] /\
+  read5 Broker [64; 6; 0; 5; 1; 2; 255; 0] (Some 100) = Malformed InvalidConnectReturnCode [].
+Proof. vm_compute. repeat split. Qed.
+
+Example asym5_connack_v4_codes :      (* the v4-only ConnectReturnCode variants hit unreachable!() in both v5 encoders *)
+  write5 Client None (ConnAck5 false 2 None) = Panic P_UNREACHABLE /\ write5 Broker None (ConnAck5 false 1 None) = Panic P_UNREACHABLE
+  /\ write5 Broker None (ConnAck5 false 2 None) = Err Unrepresentable /\ wf5 Client (ConnAck5 false 2 None) = false.
+Proof. vm_compute. repeat split. Qed.
+
+Example disconnect5_reason_only :     (* DISCONNECT with a reason code and no property length (valid MQTT 5) is rejected by both decoders *)
+  read5 Client [224; 1; 4] None = Malformed MalformedPacket [] /\ read5 Broker [224; 1; 4] (Some 100) = Malformed MalformedPacket [].
+Proof. vm_compute. repeat split. Qed.
